@@ -532,6 +532,9 @@ func runMsg(c *Case) lib.Result {
 	if c.Kind == "msgmap" {
 		return runMsgMap(c)
 	}
+	if c.Kind == "deep" {
+		return runDeep(c)
+	}
 	if c.ErrAt != nil {
 		return runMsgErr(c)
 	}
@@ -959,6 +962,9 @@ func genMsgCase(r *lib.Rng, tier string) *Case {
 	maxChunks := 7
 	if tier == "thorough" {
 		maxChunks = 14
+	}
+	if r.Chance(1, 8) {
+		return genDeepCase(r, tier)
 	}
 	if r.Chance(1, 6) {
 		return genMsgMapCase(r, tier)
